@@ -367,6 +367,8 @@ func checkC01(c *Ctx) {
 
 	c.Rule("C01.pcrel", "the helper that adds a signed 32-bit immediate to an address (PC-relative targets, auipc), walked with the wrap-around of its Go integer types for immediates 0, 1, -1, 2047, -2048, MaxInt32 and MinInt32 at a low and a high address, returns address + sign-extended immediate modulo 2^64")
 	checkPCRelative(c)
+	c.Rule("C01.remsign", "the signed remainder that rem/remw are lifted to takes its sign from the dividend (RISC-V: the sign of the result equals the sign of the dividend): where exprtools.SignedMod chooses between the unsigned remainder and its negation, the choice does not depend on the divisor")
+	checkRemainderSign(c)
 	c.Rule("C01.wrap", "a constant of width w built from the instruction address (jump and branch targets, the fall-through address) is reduced to w bytes first: the functions of package riscv that call expr.NewConstUint on an address, walked for addresses at both ends of the 32-bit and of the 64-bit space with immediates +8 and -4, never hand it a value that does not fit (the constructor panics on one)")
 	checkAddressWrap(c)
 
@@ -1190,4 +1192,42 @@ func checkAddressWrap(c *Ctx) {
 		}
 	}
 	c.RequireCount("C01.wrap functions building a constant from an address", n, 1)
+}
+
+// checkRemainderSign decides C01.remsign.
+func checkRemainderSign(c *Ctx) {
+	sm := c.Prog.Func(ModulePath + "/pkg/expr/exprtools.SignedMod")
+	if sm == nil || sm.Blocks == nil || len(sm.Params) < 2 {
+		c.Undecide("C01.remsign: exprtools.SignedMod not found")
+		return
+	}
+	enter := func(g *ssa.Function) bool {
+		return g != nil && g.Blocks != nil && PkgPathOf(g) == PkgPathOf(sm)
+	}
+	n := 0
+	for _, s := range DeepCalls(sm, enter) {
+		call, ok := s.Instr.(*ssa.Call)
+		if !ok || call.Call.StaticCallee() == nil || NameOf(call.Call.StaticCallee()) != "BoolCond" || len(call.Call.Args) < 3 {
+			continue
+		}
+		// the selection between the negated and the plain result
+		negated := func(v ssa.Value) bool {
+			return DependsOnVia(s.Chain, v, nil, func(x ssa.Value) bool {
+				cc, ok := x.(*ssa.Call)
+				return ok && cc.Call.StaticCallee() != nil && NameOf(cc.Call.StaticCallee()) == "Negate"
+			}, nil)
+		}
+		if negated(call.Call.Args[1]) == negated(call.Call.Args[2]) {
+			continue
+		}
+		n++
+		onDivisor := DependsOnVia(s.Chain, call.Call.Args[0], enter, func(x ssa.Value) bool { return x == ssa.Value(sm.Params[1]) }, nil)
+		if os.Getenv("MLTLINT_DEBUG") == "rem" {
+			fmt.Fprintf(os.Stderr, "rem: site %s in %s chain=%d cond=%v onDivisor=%v onDividend=%v\n", call, s.Fn, len(s.Chain), call.Call.Args[0], onDivisor,
+				DependsOnVia(s.Chain, call.Call.Args[0], enter, func(x ssa.Value) bool { return x == ssa.Value(sm.Params[0]) }, nil))
+		}
+		c.Oblige("C01.remsign", ShortName(sm)+"/sign-of-result", c.Prog.Pos(call.Pos()), !onDivisor,
+			"the sign of the remainder also depends on the sign of the divisor: rem x3,x1,x2 with x1=7, x2=-2 gives -1 where RISC-V prescribes 1 (rv32/rv64 rem, rv64 remw)")
+	}
+	c.RequireCount("C01.remsign sign selections in SignedMod", n, 1)
 }
